@@ -80,6 +80,7 @@ type Term struct {
 	R    *big.Rat // constant real value
 	F    *float64 // constant binary64 value
 	Conj []Term   // for conjunctions: the conjuncts (used to split proof goals)
+	Imp  []Term   // for implications: antecedent and consequent
 }
 
 func (t Term) String() string { return t.S }
@@ -197,7 +198,9 @@ func Implies(a, b Term) Term {
 	if b.B != nil && *b.B {
 		return True
 	}
-	return App(SBool, "=>", a, b)
+	t := App(SBool, "=>", a, b)
+	t.Imp = []Term{a, b}
+	return t
 }
 func Iff(a, b Term) Term { return Eq(a, b) }
 func Eq(a, b Term) Term {
